@@ -568,12 +568,12 @@ func prevStr(p client.VerifC03Prev, reference string) string {
 
 // evIP renders the datagram facts for the model: d:<src>:<len>:<lvm>:<stratum>:<org>:<rx>:<tx>:<cRx>:<before>
 // or f:<before> (MSG_TRUNC: longer than the client's 48-byte buffer), then e:0 (deadline) if set.
-func evIP(p *peer, sent []dgram, cRx int64, deadlineSet bool, bufCap int) string {
+func evIP(p *peer, sent []dgram, cRx int64, deadlineSet bool, bufCap int, before string) string {
 	var ev []string
 	for _, d := range sent {
 		v := fmt.Sprintf(":%s:%s:%s", lib.Bool(d.ntsDec), lib.Bool(d.ntsUID), lib.Bool(d.ntsOpen))
 		if d.wire != nil && len(d.wire) > scionBufLen {
-			ev = append(ev, "f:1") // longer than the SCION client's receive buffer: MSG_TRUNC
+			ev = append(ev, "f:"+before) // longer than the SCION client's receive buffer: MSG_TRUNC
 			continue
 		}
 		if d.wire != nil {
@@ -583,11 +583,11 @@ func evIP(p *peer, sent []dgram, cRx int64, deadlineSet bool, bufCap int) string
 				lvm, st = d.b[0], d.b[1]
 				org, rx, tx = be64(d.b[24:]), be64(d.b[32:]), be64(d.b[40:])
 			}
-			ev = append(ev, fmt.Sprintf("s:%s:%d:%d:%d:%s:%s:%s:%d:1", d.facts, len(d.b), lvm, st, f64(org), f64(rx), f64(tx), cRx)+v)
+			ev = append(ev, fmt.Sprintf("s:%s:%d:%d:%d:%s:%s:%s:%d:%s", d.facts, len(d.b), lvm, st, f64(org), f64(rx), f64(tx), cRx, before)+v)
 			continue
 		}
 		if len(d.b) > bufCap {
-			ev = append(ev, "f:1")
+			ev = append(ev, "f:"+before)
 			continue
 		}
 		var lvm, st uint8
@@ -596,7 +596,7 @@ func evIP(p *peer, sent []dgram, cRx int64, deadlineSet bool, bufCap int) string
 			lvm, st = d.b[0], d.b[1]
 			org, rx, tx = be64(d.b[24:]), be64(d.b[32:]), be64(d.b[40:])
 		}
-		ev = append(ev, fmt.Sprintf("d:%d:%d:%d:%d:%s:%s:%s:%d:1", p.srcNum(d.src), len(d.b), lvm, st, f64(org), f64(rx), f64(tx), cRx)+v)
+		ev = append(ev, fmt.Sprintf("d:%d:%d:%d:%d:%s:%s:%s:%d:%s", p.srcNum(d.src), len(d.b), lvm, st, f64(org), f64(rx), f64(tx), cRx, before)+v)
 	}
 	if deadlineSet {
 		ev = append(ev, "e:0")
@@ -947,9 +947,18 @@ func recordIP(c *lib.Ctx, tag string, cfg exchCfg, res exchResult) int {
 	if cfg.nts {
 		bufCap = nts.MaxPacketLen
 	}
+	// the deadline test of the (at most one) retry decision: with kernel timestamps the client reads the
+	// clock for cTxTime0, for the tx-timestamp fallback, and then only in that test — the third
+	// recorded reading is the one it compared with the deadline (under machine load the deadline may
+	// have passed by the time the first refused datagram is looked at)
+	before := "1"
+	if cfg.deadline != 0 && cfg.zone == "" && len(res.rd) >= 3 && res.rd[2] >= res.deadlineAt.UnixNano() {
+		before = "0"
+		c.Count(tag + ":deadline-passed-at-first-refusal")
+	}
 	op := fmt.Sprintf("cli.exch tr=%s il=%s nts=%s dl=%s filt=%s %s ref=same prev=%s now=%d ctx1=%d ev=%s",
 		res.tr, ilS, lib.Bool(cfg.nts), dlS, filt, res.hdr, prevStr(res.prev0, reference), res.now0, ctx1,
-		evIP(p, res.sent, cRxAll, cfg.deadline != 0, bufCap))
+		evIP(p, res.sent, cRxAll, cfg.deadline != 0, bufCap, before))
 	var ans string
 	switch {
 	case res.panicked != "":
